@@ -191,6 +191,43 @@ def make(params):
     return HAppend(params) if params.get("lemma") == "append_text" else H(params)
 
 
+def group1_side_condition():
+    """the stub contract 'a candidate token has 0 <= start < end' rests on Token.from_match reading group 1:
+    every installed extractor pattern has a group 1 that takes part in every match and cannot be empty.
+    Read off each pattern's AST. returns (n, offenders)."""
+    import re._constants as sc
+    import re._parser as sp
+
+    import eyecite.tokenizers as T
+
+    bad = []
+    for i, e in enumerate(T.EXTRACTORS):
+        p = sp.parse(e.regex, e.flags)
+
+        def mandatory_g1(seq):
+            for op, av in seq:
+                if op == sc.SUBPATTERN:
+                    if av[0] == 1:
+                        return sp.SubPattern(p.state, list(av[3])).getwidth()[0]
+                    r = mandatory_g1(av[3])
+                    if r is not None:
+                        return r
+                elif op == sc.BRANCH:
+                    rs = [mandatory_g1(b) for b in av[1]]
+                    if all(r is not None for r in rs):
+                        return min(rs)
+                elif op in (sc.MAX_REPEAT, sc.MIN_REPEAT) and av[0] >= 1:
+                    r = mandatory_g1(av[2])
+                    if r is not None:
+                        return r
+            return None
+
+        w = mandatory_g1(p)
+        if w is None or w < 1:
+            bad.append((i, e.regex[:60], w))
+    return len(T.EXTRACTORS), bad
+
+
 def replay_append(w):
     import eyecite.tokenizers as T
 
@@ -412,6 +449,30 @@ def check(rep):
         else:
             rep.spurious += 1
             rep.inconc(f"append_text lemma: model did not reproduce: {f['witness']}")
+    n_ext, g1_bad = group1_side_condition()
+    rep.sections["group1_side_condition"] = {"extractors": n_ext, "offenders": g1_bad[:3]}
+    rep.oblige(n_ext - len(g1_bad))
+    if g1_bad:
+        rep.oblige(len(g1_bad), ok=False)
+        i, rx_, w_ = g1_bad[0]
+        # an extractor whose group 1 may be absent or empty: find a text showing a token with start >= end / a crash
+        import eyecite.tokenizers as T2
+
+        e = T2.EXTRACTORS[i]
+        shown = False
+        for probe in ("", " ", "x", "1 U.S. 1", "§", "\n"):
+            try:
+                toks = [e.get_token(m) for m in e.get_matches(probe)]
+                if any(not (t.start < t.end) for t in toks):
+                    rep.violation(f"extractor {rx_!r} yields a token with start >= end on {probe!r}", {"kind": "text", "text": probe, "tokenizer": "Tokenizer"})
+                    shown = True
+                    break
+            except Exception as ex:
+                rep.violation(f"extractor {rx_!r}: Token.from_match raised {type(ex).__name__} on {probe!r} (group 1 did not take part in the match)", {"kind": "text", "text": probe, "tokenizer": "Tokenizer"})
+                shown = True
+                break
+        if not shown:
+            rep.inconc(f"{len(g1_bad)} extractor patterns whose group 1 may be absent or empty (e.g. {rx_!r}); no probe text exposes it")
     # regression witnesses (fixed findings) through the shipped tokenizers
     toks = {"Tokenizer": T.Tokenizer(), "AhocorasickTokenizer": T.default_tokenizer}
     for s in REGRESSION:
